@@ -558,3 +558,13 @@ Proof.
   - rewrite read_fields_spec. reflexivity.
   - rewrite read_fields_spec. reflexivity.
 Qed.
+
+(* ---- one Config, many reads: no call depends on what an earlier one left in cfg.ifs ------------ *)
+Theorem read_seq_independent : forall calls prev,
+  read_seq prev calls =
+  map (fun c => match c with (oifs, line, n, raw) => read_fields oifs line n raw end) calls.
+Proof.
+  induction calls as [|[[[oifs line] n] raw] calls IH]; intros prev; simpl.
+  - reflexivity.
+  - rewrite IH. reflexivity.
+Qed.
